@@ -19,7 +19,7 @@ from sim.loadsim import LoadSim, LoadStuck, ScheduleObserver, SimParamSource, Si
 from sim.simes import Installed, Outcome, SimES
 from sim.vclock import EPOCH, Proc, VClock
 
-FAULTS = ["http-400", "http-404", "http-500", "http-503x2", "http-503x4", "connx2", "disconnectx1", "disconnectx2", "timeout", "timeout-last", "slow"]
+FAULTS = ["http-400", "http-404", "http-500", "http-503x2", "http-503x4", "connx2", "disconnectx1", "disconnectx2", "timeout", "timeout-last", "body-timeout", "slow"]
 
 
 # ---------------------------------------------------------------------------------------------
@@ -150,7 +150,8 @@ def gen_task(g, prop, name, svc, allow_ramp, big=False):
     if t["op"] == "sim-poll":
         plan["completes_after"] = g.randint(1, 12)
     elif g.coin(0.3):
-        plan["faults"] = {str(g.randint(0, 8)): g.pick(FAULTS) for _ in range(g.randint(1, 3))}
+        # (C05 takes the end of a request from Rally's own record; a time-out while the body is read ends later than any hook says)
+        plan["faults"] = {str(g.randint(0, 8)): g.pick(FAULTS if prop != "C05" else [f for f in FAULTS if f != "body-timeout"]) for _ in range(g.randint(1, 3))}
     if "size" in t:
         plan["size"] = t.pop("size")
         plan["progress"] = t.pop("progress")
@@ -212,7 +213,7 @@ def gen_composite(g, task, depth, counter=None):
     return items
 
 
-LEAF_FAULTS = ["http-400", "http-500", "timeout", "conn-error", "http-503"]
+LEAF_FAULTS = ["http-400", "http-500", "timeout", "body-timeout", "conn-error", "http-503"]
 
 
 def safe_fault_leaves(items, out=None):
@@ -241,7 +242,7 @@ def gen_leaf_faults(g, items, task):
         kind = g.pick(LEAF_FAULTS)
         first = g.pick([0, 0, 1, 2, 4])
         # (a connection error that outlives the transport's retries is fatal whatever on-error says: at most two in a row)
-        run = 1 if kind in ("http-400", "http-500", "timeout") else (g.pick([1, 2]) if kind == "conn-error" else g.pick([1, 2, 4, 5]))
+        run = 1 if kind in ("http-400", "http-500", "timeout", "body-timeout") else (g.pick([1, 2]) if kind == "conn-error" else g.pick([1, 2, 4, 5]))
         leaf["fault"] = {"kind": kind, "at": list(range(first, first + run))}
 
 
@@ -466,6 +467,8 @@ class LoadgenHarness(Harness):
                         return Outcome(delay=d, kind="timeout")
                     if lf["kind"] == "conn-error":
                         return Outcome(delay=d, kind="conn-error")
+                    if lf["kind"] == "body-timeout":
+                        return Outcome(delay=d, kind="body-timeout", body_delay=max(bd, 0.002))
                     return Outcome(delay=d, kind="status", status=int(lf["kind"][5:]), body_delay=bd)
                 return Outcome(delay=d, body_delay=bd)
             if parts[0] != "_sim":
@@ -503,6 +506,10 @@ class LoadgenHarness(Harness):
                 elif fault == "timeout":
                     fired_kind = "timeout"
                     out = Outcome(delay=d, kind="timeout")
+                elif fault == "body-timeout":
+                    # status line and headers arrive, then the client's time-out strikes while the body is being read
+                    fired_kind = "timeout-while-reading-body"
+                    out = Outcome(delay=d, kind="body-timeout", body_delay=max(bd, 0.002))
                 elif fault == "timeout-last":
                     # earlier wire requests of this logical request succeed, its last one runs into the client time-out
                     nws = plans[task].get("nwire") or [1]
@@ -930,11 +937,13 @@ def check_timings(prop, cfg, t, ci, client, h, ys, samples, reqs, tr, wires, pro
                 bad("service-time", "span", f"{ctx}: service_time {s.service_time} from request_start {s.request_start}; the wire requests span {re - rs} from {rs}")
                 return
             first_send = min(w.t_send for w in ws)
-            last_recv = max(w.t_recv for w in ws if w.t_recv is not None)
+            # (a time-out while the body is read: the last thing the client has seen of the response are its headers)
+            last_recv = max((w.t_headers if w.outcome == "body-timeout" else w.t_recv) for w in ws if w.t_recv is not None)
+            body_timeout = any(w.outcome == "body-timeout" for w in ws)
             if not (-1e-9 <= first_send - rs_v <= tol) or not (-1e-9 <= re_v - last_recv <= tol):
                 bad("service-time", "grounding", f"{ctx}: hooks fired at [{rs_v}, {re_v}] but the cluster saw send {first_send} receive {last_recv}")
                 return
-            if s.processing_time > s.service_time + cpu_pre + cpu_post + tol:
+            if s.processing_time > s.service_time + cpu_pre + cpu_post + tol and not body_timeout:
                 bad("processing-time", "too-large", f"{ctx}: processing_time {s.processing_time} exceeds service_time {s.service_time} + client overhead {cpu_pre + cpu_post}")
                 return
             wall_start = EPOCH + rs_v + proc.wall_skew
@@ -971,7 +980,7 @@ def check_timings(prop, cfg, t, ci, client, h, ys, samples, reqs, tr, wires, pro
         if t["op"] == "sim-op":
             seq = k
             fault = (plan.get("faults") or {}).get(str(seq))
-            hard = fault in ("http-400", "http-404", "http-500", "http-503x4", "timeout", "timeout-last")
+            hard = fault in ("http-400", "http-404", "http-500", "http-503x4", "timeout", "timeout-last", "body-timeout")
             soft = str(seq) in (plan.get("soft_fail") or {})
             w_plan = (plan.get("weights") or [1])[seq % len(plan.get("weights") or [1])]
             want_ops = 0 if (hard or soft) else w_plan
